@@ -60,9 +60,9 @@ fn decoration(r: &mut Rng, out: &mut Vec<u8>) {
 fn text(r: &mut Rng, out: &mut Vec<u8>, n: &mut usize) {
     *n += 1;
     match r.below(4) {
-        0 => out.extend_from_slice(format!("<![CDATA[c{}]]>", n).as_bytes()),
-        1 => out.extend_from_slice(format!("t{} &amp; more", n).as_bytes()),
-        _ => out.extend_from_slice(format!("t{}", n).as_bytes()),
+        0 => out.extend_from_slice(format!("<![CDATA[c{:03}]]>", n).as_bytes()),
+        1 => out.extend_from_slice(format!("t{:03} &amp; more", n).as_bytes()),
+        _ => out.extend_from_slice(format!("t{:03}", n).as_bytes()),
     }
 }
 
@@ -81,7 +81,7 @@ fn element(r: &mut Rng, g: &GenCfg, name: &str, depth: usize, out: &mut Vec<u8>,
     r.shuffle(&mut attrs);
     for a in attrs {
         *n += 1;
-        out.extend_from_slice(format!(" {}=\"v{}\"", a, n).as_bytes());
+        out.extend_from_slice(format!(" {}=\"v{:03}\"", a, n).as_bytes());
     }
     let nk = if depth >= g.max_depth || *budget == 0 { 0 } else { r.below(g.max_kids + 1) };
     let want_text = r.chance(g.text_pct, 100);
